@@ -62,7 +62,7 @@ class MinGenSet():
         - `remove_complement_values` : bool
 
             If `True`, if `a` contains both `x` and `total - x`, it keeps only the smallest of them. Default is `True`.
-            This is always correct to do. If say the generating set is $g_1, g_2, g_3, g_4$, with $g_1 + g_2 + g_3 + g_4 = total$.
+            This is correct to do when `max_multiplicity` is 1 (with larger multiplicities, only the values 0 and `total` are removed). If say the generating set is $g_1, g_2, g_3, g_4$, with $g_1 + g_2 + g_3 + g_4 = total$.
             If $x = g_1 + g_3$, then $total - x = g_2 + g_4$. So $total - x$ is expressed as a sum of values in the generating set.
         
         - `remove_sums_of_two` : bool
@@ -133,7 +133,8 @@ class MinGenSet():
         if remove_complement_values:
             elements_to_remove = set()
             for val in self.numbers:
-                if total - val in self.numbers and total - val > val:
+                # With multiplicities, x = 2 * g1 does not make total - x a sum of elements of the generating set
+                if self.max_multiplicity == 1 and total - val in self.numbers and total - val > val:
                     elements_to_remove.add(total - val)
                 if val == total or val == 0:
                     elements_to_remove.add(val)
